@@ -12,7 +12,7 @@ EXTENDS Man, FTab, Json
 VARIABLE l
 TraceRecs == ndJsonDeserialize("trace.ndjson")
 Decls == ndJsonDeserialize("decls.ndjson")
-Props == {"C16", "C17", "C15", "DRIFT"}
+Props == {"C16", "C17", "C15", "C04", "DRIFT"}
 B(x) == IF x THEN 1 ELSE 0
 
 Scn(rec, argv) == [decl |-> rec.decl, popts |-> rec.popts, handler |-> "none", cmdHandler |-> FALSE, execErr |-> FALSE, env |-> <<>>, argv |-> argv,
@@ -38,6 +38,8 @@ Judge(rec) ==
               ELSE IF isHelp THEN (okKind => ContentOK(o.lines, s0, chain, pre))
               ELSE ManOK(o.lines, s0),
       C15 |-> crashed \/ o.distinct = 1,
+      \* C04 for help requests: ParseArgs with --help returns normally, and with the typed error the specification says
+      C04 |-> (rec.kind = "errhelp") => (~crashed /\ (f.err.t = "ErrHelp" => o.errType = "ErrHelp")),
       DRIFT |-> crashed \/ (IF isHelp THEN (~okKind \/ o.lines = spec \/ HasPanic(spec)) ELSE ManExact(o.lines, s0)),
       help |-> B(isHelp), man |-> B(~isHelp), deep |-> B(Len(chain) > 1), narrow |-> B(rec.width > 0 /\ rec.width < 40),
       wide |-> B(rec.width >= 100), panics |-> B(crashed), specpanic |-> B(isHelp /\ HasPanic(spec))]
